@@ -14,9 +14,10 @@ class Deadlock(BaseException):
 
 
 class Sched:
-    def __init__(self, seed=0, choices=None, exhaustive=False):
+    def __init__(self, seed=0, choices=None, exhaustive=False, policy="random"):
         self.rng = random.Random(seed)
         self.exhaustive = exhaustive
+        self.policy = policy            # "random" | "workers_first" | "consumer_first"
         self.choices = list(choices) if choices is not None else None   # replay: index into enabled list
         self.taken: list[int] = []          # choice made at every step (index into the sorted enabled list)
         self.branching: list[int] = []      # number of enabled threads at every step
@@ -62,6 +63,10 @@ class Sched:
             k = self.choices[len(self.taken)] % len(en)
         elif self.choices is not None and self.exhaustive:
             k = 0                      # depth-first enumeration: first alternative beyond the forced prefix
+        elif self.policy == "workers_first":
+            k = len(en) - 1            # names sort as c < w0 < w1 …: the last enabled thread is a worker if any is enabled
+        elif self.policy == "consumer_first":
+            k = 0
         else:
             k = self.rng.randrange(len(en))
         self.taken.append(k); self.branching.append(len(en))
